@@ -198,7 +198,12 @@ def check_packet(ctx, M, kind, wire, rec, verify, label, mutate=True):
             dp2, dc2 = opt(M([12, v2])), opt(M([13, v2]))
             want = dp2 is not None and dc2 is not None and hashlib.sha256(dp2).digest() == dc2
             got = bool(run_coro(params_sha256_checker(name2, ptrs2)))
-            ndig = sum(1 for c in name2 if bytes(c)[:1] == b'\x02')
+            ndig = 0
+            for c in name2:          # by decoded Type (a Type may be written in a non-shortest form)
+                try:
+                    ndig += TG.read_num(bytes(c), 0)[0] == 2
+                except Exception:    # noqa
+                    ndig += 2
             # a name with several ParametersSha256 components has no well-defined "its digest component", and a
             # packet whose recognised elements are duplicated / out of order has no well-defined
             # "ApplicationParameters of the Interest": not judged
